@@ -46,6 +46,23 @@ type Listener struct {
 	doneOnce   *sync.Once
 }
 
+// quicPacketConn is the packet connection handed to QUIC. A datagram that cannot be forwarded at the
+// moment (no route or no next hop, for instance while the mesh is re-routing around a lost link) is
+// reported to QUIC as sent: QUIC treats any send error as fatal for the whole connection, whereas a
+// lost datagram is simply retransmitted. A local "service unknown" error is still reported.
+type quicPacketConn struct {
+	PacketConner
+}
+
+func (q quicPacketConn) WriteTo(p []byte, addr net.Addr) (int, error) {
+	n, err := q.PacketConner.WriteTo(p, addr)
+	if err != nil && err.Error() != ProblemServiceUnknown {
+		return len(p), nil
+	}
+
+	return n, err
+}
+
 // Internal implementation of Listen and ListenAndAdvertise.
 func (s *Netceptor) listen(ctx context.Context, service string, tlscfg *tls.Config, advertise bool, adTags map[string]string) (*Listener, error) {
 	if len(service) > 8 {
@@ -113,7 +130,7 @@ func (s *Netceptor) listen(ctx context.Context, service string, tlscfg *tls.Conf
 	statelessResetKey := make([]byte, 32)
 	rand.Read(statelessResetKey)
 	tr := quic.Transport{
-		Conn:              pc,
+		Conn:              quicPacketConn{pc},
 		StatelessResetKey: (*quic.StatelessResetKey)(statelessResetKey),
 	}
 	_ = os.Setenv("QUIC_GO_DISABLE_RECEIVE_BUFFER_WARNING", "1")
@@ -382,7 +399,7 @@ func (s *Netceptor) DialContext(ctx context.Context, node string, service string
 	statelessResetKey := make([]byte, 32)
 	rand.Read(statelessResetKey)
 	tr := quic.Transport{
-		Conn:              pc,
+		Conn:              quicPacketConn{pc},
 		StatelessResetKey: (*quic.StatelessResetKey)(statelessResetKey),
 	}
 	qc, err := tr.Dial(cctx, rAddr, tlscfg, cfg)
